@@ -1,4 +1,5 @@
 import TensorModel.Proofs.Ltoi
+import TensorModel.Proofs.CoreEq
 /-!
   C01 — coordinate addressing is exact and bounds-checked.
   Property theorems only; helper lemmas live in `TensorModel/Proofs/Ltoi.lean`.
@@ -119,5 +120,62 @@ theorem setAt_other_coords (st st' : St) (t : Dense) (c c' : List Int) (v : Val)
 example : inBox [2, 3] [1, 2] = true ∧ ([3, 1] : List Int).length = ([2, 3] : Shape).length := by decide
 example : (match ltoi [2, 3] [3, 1] [1, -1] with | .error (.err _) => true | _ => false) = true := by decide
 example : (match ltoi [2, 3] [3, 1] [1, 2] with | .ok 5 => true | _ => false) = true := by decide
+
+/-! ## the same statements about the regenerated source of `utils.go:Ltoi`
+
+`Gen.Ltoi` is written by `tools/gol` from /repo's `utils.go` on every run (`Generated/Core.lean`);
+`Proofs/CoreEq.lean` proves it equal (value / error / panic class) to the model function `ltoi` for all
+arguments, so the theorems above are theorems about the function body as it is in the source now. -/
+
+/-- the source of `Ltoi`, translated, is the model function -/
+theorem Ltoi_source_is_model (shape strides coords : List Int) :
+    Gen.clsE (Gen.Ltoi shape strides coords) = Gen.clsM (ltoi shape strides coords) :=
+  Gen.Ltoi_eq shape strides coords
+
+/-- `Ltoi` (source): an in-range coordinate yields exactly Σ cᵢ·sᵢ — no error, no panic. -/
+theorem Ltoi_source_exact (shape : Shape) (strides c : List Int)
+    (hlen : strides.length = shape.length) (hc : inBox shape c = true) :
+    Gen.clsE (Gen.Ltoi shape strides c) = .val (dot c strides) := by
+  rw [Gen.Ltoi_eq, ltoi_exact shape strides c hlen hc]; rfl
+
+/-- `Ltoi` (source) on default row-major / column-major strides: the row-major / column-major rank. -/
+theorem Ltoi_source_rowMajor (shape : Shape) (c : List Int) (hc : inBox shape c = true) :
+    Gen.clsE (Gen.Ltoi shape (calcStrides shape) c) = .val (rowRank shape c) := by
+  rw [Gen.Ltoi_eq, ltoi_rowMajor shape c hc]; rfl
+
+theorem Ltoi_source_colMajor (shape : Shape) (c : List Int) (hc : inBox shape c = true) :
+    Gen.clsE (Gen.Ltoi shape (prefixProds 1 shape) c) = .val (colRank shape c) := by
+  rw [Gen.Ltoi_eq, ltoi_colMajor shape c hc]; rfl
+
+/-- `Ltoi` (source): a coordinate of the right arity with a component negative or ≥ its dimension is
+    rejected with an error value (not a panic, not an offset). -/
+theorem Ltoi_source_rejects (shape : Shape) (strides c : List Int)
+    (hlen : strides.length = shape.length) (harity : c.length = shape.length)
+    (hbad : inBox shape c = false) :
+    Gen.clsE (Gen.Ltoi shape strides c) = .err := by
+  obtain ⟨tag, h⟩ := ltoi_rejects shape strides c hlen harity hbad
+  rw [Gen.Ltoi_eq, h]; rfl
+
+/-- default stride computation (source of `shape.go:CalcStrides`, every rank, non-negative dimensions)
+    followed by `Ltoi` (source): the row-major rank of the coordinate — the whole addressing pipeline of a
+    row-major tensor as it is in the source now. -/
+theorem source_rowMajor_addressing (shape : Shape) (c : List Int) (hpos : ∀ d ∈ shape, 0 ≤ d)
+    (hc : inBox shape c = true) :
+    (do let st ← Gen.Shape_CalcStrides shape; pure (Gen.clsE (Gen.Ltoi shape st c))) = .ok (.val (rowRank shape c)) := by
+  rw [Gen.Shape_CalcStrides_eq shape hpos]
+  simp only [bind, Except.bind, pure, Except.pure]
+  rw [Ltoi_source_rowMajor shape c hc]
+
+/-- the same for a column-major tensor of a proper n-d shape (`CalcStridesColMajor` source, then `Ltoi` source) -/
+theorem source_colMajor_addressing (shape : Shape) (c : List Int) (hpos : ∀ d ∈ shape, 0 ≤ d)
+    (hv : isVector shape = false) (hs : isScalarEquiv shape = false) (hc : inBox shape c = true) :
+    (do let st ← Gen.Shape_CalcStridesColMajor shape; pure (Gen.clsE (Gen.Ltoi shape st c))) = .ok (.val (colRank shape c)) := by
+  rw [Gen.Shape_CalcStridesColMajor_eq shape hpos]
+  simp only [bind, Except.bind, pure, Except.pure, calcStridesCol, hs, hv, Bool.false_eq_true, if_false]
+  rw [Ltoi_source_colMajor shape c hc]
+
+example : Gen.clsE (Gen.Ltoi [2, 3] [3, 1] [1, 2]) = .val 5 := by decide
+example : Gen.clsV (Gen.Shape_CalcStrides [2, 3, 4]) = .val [12, 4, 1] ∧ Gen.clsV (Gen.Shape_CalcStridesColMajor [2, 3, 4]) = .val [1, 2, 6] := by decide
+example : Gen.clsE (Gen.Ltoi [2, 3] [3, 1] [1, -1]) = .err := by decide
 
 end TM.C01
